@@ -459,6 +459,19 @@ def register(T, repo):
     c.loop(1).shapes['out'] = lambda E: ListS(hull_doc(E), None, 'out')
 
     # ---------------------------------------------------------- arg_buffer
+    def ab_opened_by_markup(A):
+        st = A['$st']
+        if not sym.is_str(A['end']) or sym.seq_eq(A['end'], ']') is not True:
+            return True
+        tok = st.env.get('tok')
+        if tok is None:
+            return True
+        o = tok.obj if isinstance(tok, Opt) else tok
+        if not isinstance(o, Obj):
+            return True
+        isn = tok.isnone if isinstance(tok, Opt) else False
+        return Or(isn, Not(tm.cls_is(A['$ex'], o, D + 'VerbatimToken')))
+
     c = T.add(FContract(
         PAR + 'arg_buffer', ghosts=parser_ghost,
         params=lambda G: {'self': ParserS(G['src']),
@@ -467,7 +480,12 @@ def register(T, repo):
                           'end': StrS(name='end')},
         requires=[('start-in-range', in_range),
                   ('end-is-a-closing-bracket', lambda A: Or(
-                      sym.seq_eq(A['end'], '}'), sym.seq_eq(A['end'], ']')))],
+                      sym.seq_eq(A['end'], '}'), sym.seq_eq(A['end'], ']'))),
+                  # C02 / C03: an optional argument or the option of \\\\ is
+                  # opened by the markup character `[`, never by verbatim
+                  # material that reads `[` (the caller has just looked at
+                  # the token in its local `tok`)
+                  ('option-is-opened-by-markup', ab_opened_by_markup)],
         result=lambda A: ObjS('yalafi.scanner.Buffer', {
             'tokens': tm.DocList(A['src'], lambda n: zint(n) >= 1)}),
         post_objs=[('buffer', lambda A: A['buf'], post_buf)]))
@@ -511,6 +529,23 @@ def register(T, repo):
         return Or(isn, Not(tm.cls_is(A['$ex'], o, D + 'VerbatimToken')))
     c.proof_ensures.append(('closing-token-is-not-verbatim',
                             ab_closed_by_markup))
+
+    # C08: a mark never appears without a diagnostic -- on the path that
+    # returns the error mark (end of text reached: the loop ended with
+    # tok == None) latex_error has been called (ghost event counter)
+    def ab_mark_has_diagnostic(A, r):
+        L = A.get('$locals') or {}
+        tok = L.get('tok')
+        if 'out' not in L:
+            return True
+        ended = tok is None or (isinstance(tok, Opt) and tok.isnone)
+        if ended is False:
+            return True
+        n = A['$st'].ghost.get('$diag', 0)
+        return Implies(ended if ended is not True else True,
+                       bool(isinstance(n, int) and n >= 1))
+    c.proof_ensures.append(('error-mark-comes-with-a-diagnostic',
+                            ab_mark_has_diagnostic))
 
     # -------------------------------------------------------- expand_macro
     def from_maths(A):
@@ -672,6 +707,26 @@ def register(T, repo):
                      zbool(o.fields['pos_fix']))
         return Implies(isverb, ok)
     lp.body_post.append(('verbatim-material-is-copied', verb_copied))
+
+    def expansion_is_reread(E0, E1):
+        # C09 ("nested uses expand fully", the expansion behaves like the
+        # body written in place): what a macro, an environment begin or an
+        # \\item expands to goes back to the input and is read again -- the
+        # output list is not touched in that iteration
+        ex = E1['$ex']
+        tok = E1['tok']
+        o = tok.obj if isinstance(tok, Opt) else tok
+        isn = tok.isnone if isinstance(tok, Opt) else False
+        if not isinstance(o, Obj):
+            return True
+        isdef = sym.seq_eq(lift_str(o.fields['txt']), '\\def')
+        reread = And(Not(isn), Or(
+            And(tm.cls_is(ex, o, D + 'MacroToken'), Not(isdef)),
+            tm.cls_is(ex, o, D + 'BeginToken', D + 'ItemToken')))
+        return Implies(reread, zint(E1['out'].length()) ==
+                       zint(E0['out'].length()))
+    lp.body_post.append(('expansion-goes-back-to-the-input',
+                         expansion_is_reread))
     loop_parser_shapes(lp)
     lp.shapes['out'] = lambda E: tm.PreOutList(E['src'])
     lp.shapes['tok'] = lambda E: tm.OptTokS(tm.DocTok(E['src']))
@@ -776,6 +831,31 @@ def register(T, repo):
                    ('parser', P_self, post_parser)]))
 
     # --------------------------------------------------------- expand_item
+    # C04: the tokens generated for an item (label, copied punctuation
+    # mark, blanks) sit on the \\item token itself or on a token of its
+    # [label] argument -- never on the text that happens to precede the item
+    def item_tokens_anchored(A, r):
+        if not isinstance(r, TokList):
+            return False
+        start = zint(A['tok'].fields['pos'])
+        anchors = [start]
+        goals = []
+        for sg in r.segs:
+            if isinstance(sg, Many):
+                if sg.last is not None and isinstance(sg.last, Obj):
+                    anchors.append(zint(sg.last.fields['pos']))
+                if sg.first is not None and isinstance(sg.first, Obj):
+                    anchors.append(zint(sg.first.fields['pos']))
+                continue
+            o = sg.obj.obj if isinstance(sg.obj, Opt) else sg.obj
+            if not isinstance(o, Obj):
+                continue
+            if o.fresh:
+                goals.append(Or(*[zint(o.fields['pos']) == a
+                                  for a in anchors]))
+            anchors.append(zint(o.fields['pos']))
+        return And(*goals) if goals else True
+
     c = T.add(FContract(
         PAR + 'expand_item', ghosts=parser_ghost,
         params=lambda G: {'self': ParserS(G['src']),
@@ -783,6 +863,8 @@ def register(T, repo):
                           'tok': tm.DocTok(G['src']),
                           'out_so_far': tm.PreOutList(G['src'])},
         result=lambda A: tm.DocList(A['src']),
+        proof_ensures=[('generated-item-tokens-sit-on-the-item-or-its-label',
+                        item_tokens_anchored)],
         post_objs=[('buffer', lambda A: A['buf'], post_buf),
                    ('parser', P_self, post_parser)]))
 
